@@ -45,6 +45,16 @@ ASSUMPTIONS = [
     "directly constructed fingerprints are finite; rule conditions do not raise or mutate their arguments",
 ]
 
+_SAMPLED = set()
+
+
+def sample_once(ctx, obj):
+    """one evidence sample per case kind and shard, so the samples show every kind of case"""
+    if obj["kind"] not in _SAMPLED:
+        _SAMPLED.add(obj["kind"])
+        ctx.sample(obj)
+
+
 RANK = {"ignore": 0, "monitor": 1, "isolate": 2, "shutdown": 3}
 INF = float("inf")
 
@@ -274,8 +284,10 @@ def judge(ctx, scope, r, st, desc):
     if st["anergic"]:
         ctx.count("desensitised_inspections")
         if not silent:
-            ctx.violation("memory-overrides-anergy" if mem else scope + "-desensitised-not-silent",
-                          "desensitised watcher reported %s/%s" % (lvl, act), rep)
+            affected = scope == "e2e" and st.get("false_alarm_count_affected_by_memory")
+            ctx.violation("memory-overrides-anergy" if mem else ("memory-skips-streak-reset" if affected else scope + "-desensitised-not-silent"),
+                          "desensitised watcher reported %s/%s%s" % (lvl, act, " (a false alarm was counted inside an anomaly streak "
+                                                                     "whose clean inspection matched a remembered signature)" if affected and not mem else ""), rep)
             return True
         return False
     if not st["viol"]:
@@ -346,7 +358,7 @@ def run_tcell_history(ctx, spec, thr_repeat, thr_anergy, ops, kind, want_last=Fa
     if want_last:
         return last, desc
     if reached:
-        ctx.sample({"kind": kind, "thresholds": [thr_repeat, thr_anergy], "ops": len(ops), "reached": sorted(map(str, reached))[:3]})
+        sample_once(ctx, {"kind": kind, "thresholds": [thr_repeat, thr_anergy], "ops": len(ops), "reached": sorted(map(str, reached))[:3]})
     return None
 
 
@@ -560,7 +572,7 @@ def case_treg(ctx, rng):
         ctx.nontrivial(("treg", before, res.suppressed, res.modified_action.value,
                         "stable" if res.suppression_reason == "stable_agent" else (res.suppression_reason or "").split("-")[0],
                         len(rules)))
-        ctx.sample({"kind": "treg", "response": before, "result": desc["result"], "rules": rdesc})
+        sample_once(ctx, {"kind": "treg", "response": before, "result": desc["result"], "rules": rdesc})
 
 
 # ------------------------------------------------------------------ end-to-end histories
@@ -678,6 +690,8 @@ class E2E:
         self.reached = set()
         self.last_level = "none"
         self.hidden_clean = False  # a clean inspection with a remembered signature happened since the streak last restarted
+        self.last_hidden = False   # ... and the last inspection was a violating one without second signal
+        self.anergy_affected = False  # such an inspection was then dismissed as a false alarm (sticky until retraining)
 
     def log(self, *op):
         self.desc["ops"].append(list(op))
@@ -724,7 +738,7 @@ class E2E:
 
         tc.inspect = spy
         self.model = WatcherModel(self.thr_repeat, self.thr_anergy)
-        self.hidden_clean = False
+        self.hidden_clean = self.last_hidden = self.anergy_affected = False
         self.trained = True
         return True
 
@@ -760,6 +774,8 @@ class E2E:
         if not viol and not st["anergic"]:
             self.hidden_clean = mem
         st["clean_inspection_answered_from_memory"] = self.hidden_clean
+        self.last_hidden = self.hidden_clean and viol and not st["s2"] and not st["anergic"]
+        st["false_alarm_count_affected_by_memory"] = self.anergy_affected
         st["fingerprint"] = vals
         if after_training:
             st["after_training"] = True
@@ -802,13 +818,15 @@ class E2E:
     def reset(self):
         self.sys.tcells["agent"].reset()
         self.model.reset()
-        self.hidden_clean = False
+        self.hidden_clean = self.last_hidden = False
         self.log("tcell.reset")
 
     def rwc(self):
         self.sys.tcells["agent"].reset_without_confirmation()
         self.model.reset_without_confirmation()
-        self.hidden_clean = False
+        if self.last_hidden:
+            self.anergy_affected = True
+        self.hidden_clean = self.last_hidden = False
         self.log("tcell.reset_without_confirmation")
 
     def preload(self, current=True):
@@ -919,7 +937,7 @@ def _case_e2e(ctx, rng, clock):
     for fp in h.reached:
         ctx.nontrivial(fp)
     if h.reached:
-        ctx.sample({"kind": "e2e", "template": template, "config": desc["config"], "ops": desc["ops"][:40]})
+        sample_once(ctx, {"kind": "e2e", "template": template, "config": desc["config"], "ops": desc["ops"][:40]})
 
 
 CORNER_SWEEP = [(cfg, val, field, nobs)
